@@ -583,3 +583,88 @@ func VH22i_inproc_listener_gone() {
 	verif.Quiesce()
 	verif.Assert(verif.LiveGoroutines() == 0, "C10/inproc/goroutines-left-after-close")
 }
+
+// VH22j_longrun: R rounds (12; thorough 24) over two real sockets on the real
+// inproc transport, for every pattern pairing. From the second round on the
+// application does not allocate: it SENDS THE MESSAGE OBJECT IT RECEIVED in the
+// previous round (new body, whatever header the library left in it), as a
+// forwarding application does; request/reply patterns answer every request by
+// sending the received request object back and the asker re-uses the reply
+// object for its next request. Every round the receiver gets exactly the bytes
+// sent in that round, once -- also in round 10, 11, 12: nothing accumulates in
+// a re-used message (hop counts, routing words), no id or counter runs into a
+// limit, no per-exchange state is left behind.
+func VH22j_longrun() {
+	R := verif.Param("R", 12)
+	pi := verif.Param("pairing", -1)
+	if pi < 0 {
+		pi = verif.Choice("pairing", len(pairings))
+	}
+	pr := pairings[pi]
+	lab := "C01/longrun/" + pr.tx + "-" + pr.rx
+	tx, rx := vp.New(pr.tx), vp.New(pr.rx)
+	if pr.rx == "sub" {
+		rx.SetOption(mangos.OptionSubscribe, []byte{})
+	}
+	verif.Assert(rx.Listen("inproc://longrun") == nil, lab+"/listen")
+	verif.Assert(tx.Dial("inproc://longrun") == nil, lab+"/dial")
+	verif.Quiesce()
+	twoWay := pr.tx == "req" || pr.tx == "surveyor"
+	raw := pr.tx[0] == 'x'
+	var m *mangos.Message
+	for i := 0; i < R; i++ {
+		if m == nil {
+			m = mangos.NewMessage(8)
+		}
+		body := []byte{byte(i), verif.Byte("payload"), byte(0x55 ^ i)}
+		m.Body = append(m.Body[:0], body...)
+		if raw && (pr.tx == "xpair" || pr.tx == "xpush" || pr.tx == "xpub") {
+			m.Header = m.Header[:0]
+		}
+		var serr error
+		sg := verif.Go("send", func() { serr = tx.SendMsg(m) })
+		verif.Quiesce()
+		verif.Assert(sg.Done() && serr == nil, lab+"/send-blocks-or-fails-in-a-later-round")
+		if !sg.Done() || serr != nil {
+			return
+		}
+		var got *mangos.Message
+		var rerr error
+		rg := verif.Go("recv", func() { got, rerr = rx.RecvMsg() })
+		verif.Quiesce()
+		verif.Assert(rg.Done() && rerr == nil, lab+"/message-of-a-later-round-not-delivered")
+		if !rg.Done() || rerr != nil {
+			return
+		}
+		verif.Assert(verif.BytesEq(got.Body, body), lab+"/message-of-a-later-round-changed")
+		if !twoWay {
+			m = got // forwarded in the next round
+			continue
+		}
+		// answer with the request object itself
+		rb := []byte{byte(0x80 | i), verif.Byte("reply")}
+		got.Body = append(got.Body[:0], rb...)
+		var aerr error
+		ag := verif.Go("answer", func() { aerr = rx.SendMsg(got) })
+		verif.Quiesce()
+		verif.Assert(ag.Done() && aerr == nil, lab+"/answer-blocks-or-fails-in-a-later-round")
+		var rep *mangos.Message
+		var perr error
+		pg := verif.Go("recv-answer", func() { rep, perr = tx.RecvMsg() })
+		verif.Quiesce()
+		verif.Assert(pg.Done() && perr == nil, lab+"/answer-of-a-later-round-not-delivered")
+		if !pg.Done() || perr != nil {
+			return
+		}
+		verif.Assert(verif.BytesEq(rep.Body, rb), lab+"/answer-of-a-later-round-changed")
+		m = rep
+	}
+	xg := verif.Go("extra", func() { rx.RecvMsg() })
+	verif.Quiesce()
+	verif.Assert(!xg.Done(), lab+"/extra-message-delivered")
+	verif.Reach("long-run-done")
+	tx.Close()
+	rx.Close()
+	verif.Quiesce()
+	verif.Assert(verif.LiveGoroutines() == 0, "C10/longrun/goroutines-left-after-close")
+}
